@@ -234,4 +234,33 @@ theorem stale_index_without_relinking :
 example : let s := run true init [.load 3, .derivePlus 1, .assign 5, .delete 0]
     s.contents s.held = [3, 4, 6] ∧ reported s 3 = some 0 ∧ reported s 6 = some 2 := by decide
 
+/-! ### F63 — the position named for an item that is REJECTED
+
+  The theorems above are about items the list holds.  An item that is being validated is linked to the list before it is stored
+  (`cfg._container = self` in `ListProxy._validate`), and `_get_item_position` answers `len(list)` for a configuration the list does
+  not hold.  That is the position the item would get by `append`, `extend`, `+=` and in a load — and no position at all for a
+  replacement or an insertion in front of the end (recorded finding F63). -/
+
+/-- what an error raised inside an item that is not (yet) in the held list names as its index -/
+def reportedForNew (s : St) : Nat := (s.contents s.held).length
+
+/-- an appended item is reported under the position it gets -/
+theorem appended_position_right (s : St) (hw : WF s) :
+    (step true s .appendNew).contents (step true s .appendNew).held = s.contents s.held ++ [s.next] ∧
+    ((s.contents s.held ++ [s.next]).idxOf s.next = reportedForNew s) := by
+  refine ⟨by simp [step, upd], ?_⟩
+  have hnot : s.next ∉ s.contents s.held := fun h => Nat.lt_irrefl _ (hw.2.1 _ _ h)
+  simp [reportedForNew, List.idxOf_append, hnot]
+
+/-- **F63 in the model**: a rejected replacement of (or insertion before) an existing position `i` is reported under a position
+    that does not exist — never under `i` -/
+theorem rejected_replacement_names_no_position (s : St) (i : Nat) (hi : i < (s.contents s.held).length) :
+    reportedForNew s ≠ i ∧ ¬ reportedForNew s < (s.contents s.held).length := by
+  unfold reportedForNew
+  omega
+
+/-- three items held, the first one replaced by a map that is rejected: the error names position 3 -/
+example : let s := run true init [.load 3]
+    reportedForNew s = 3 ∧ (s.contents s.held).length = 3 := by decide
+
 end Cinco.C15b
